@@ -15,6 +15,20 @@ From Helm Require Import Engine.Types Engine.Ops Engine.Decisions Engine.Decisio
 Import ListNotations.
 Local Open Scope string_scope.
 
+(* lengths are not negative *)
+Ltac pose_lens m Hwf :=
+  repeat match goal with
+  | |- context [m_n m ?x] =>
+      lazymatch eval vm_compute in (is_len x) with
+      | true =>
+          lazymatch goal with
+          | _ : (0 <= m_n m x)%Z |- _ => fail
+          | _ => pose proof (Hwf x eq_refl)
+          end
+      end
+  end;
+  repeat match goal with H : (0 <= m_n m _)%Z |- _ => revert H end.
+
 Ltac gen_atoms m :=
   repeat match goal with
   | |- context [m_s m ?x] => let v := fresh "s" in generalize (m_s m x); intro v
@@ -50,10 +64,12 @@ Ltac site_tac :=
       first
         [ solve
             [ let m := fresh "m" in
-              intro m; try unfold c; cbv beta;
+              let Hwf := fresh "Hwf" in
+              intros m Hwf; try unfold c; cbv beta;
               simpl; unfold err_is_key; simpl;
               apply (f_equal (fun b => Some (VB b)));
-              gen_atoms m; clear m; gen_strs; split_fin; simpl; try reflexivity; lia ]
+              pose_lens m Hwf; clear Hwf;
+              gen_atoms m; clear m; gen_strs; intros; split_fin; simpl; try reflexivity; lia ]
         | fail 1 "DEC: the Go condition at site" lbl "no longer means what the model tests:" g ]
   end.
 
@@ -186,7 +202,7 @@ Proof. vm_compute. reflexivity. Qed.
 
 Lemma sites_ok_nth ss : forall gs n lbl c,
   sites_ok ss gs -> nth_error ss n = Some (Modelled lbl c) ->
-  exists g, nth_error gs n = Some g /\ forall m : menv, deval m g = Some (VB (c m)).
+  exists g, nth_error gs n = Some g /\ forall m : menv, env_wf m -> deval m g = Some (VB (c m)).
 Proof.
   induction ss as [|s ss IH]; intros gs n lbl c Hok Hn; [destruct n; discriminate|].
   destruct gs as [|g gs]; [contradiction|]. destruct Hok as [Hs Hok].
@@ -205,7 +221,7 @@ Qed.
 Lemma decision_site_agrees_lemma f n lbl c :
   nth_error (sites_of sites f) n = Some (Modelled lbl c) ->
   exists kind g, nth_error (sites_of decisions f) n = Some (kind, g) /\
-                 forall m : menv, deval m g = Some (VB (c m)).
+                 forall m : menv, env_wf m -> deval m g = Some (VB (c m)).
 Proof.
   intros Hn.
   assert (Hf : In f (map fst sites)) by (eapply sites_of_in, nth_error_In, Hn).
@@ -232,12 +248,12 @@ Proof. exists (set_s "Last.status" SFailed env0). vm_compute. discriminate. Qed.
 
 (* the max-history test off by one *)
 Lemma rejects_off_by_one_lemma :
-  exists m, deval m (DLt (DVar TN "History.len") (DVar TN "arg2")) <> Some (VB (c_rlr_fits m)).
-Proof. exists (set_n "History.len" 3%Z (set_n "arg2" 3%Z env0)). vm_compute. discriminate. Qed.
+  exists m, deval m (DLt (DVar TN "len(History)") (DVar TN "arg2")) <> Some (VB (c_rlr_fits m)).
+Proof. exists (set_n "len(History)" 3%Z (set_n "arg2" 3%Z env0)). vm_compute. discriminate. Qed.
 
 (* an expression the translator could not read never meets an obligation *)
 Lemma rejects_unknown_lemma c txt : ~ site_ok (Modelled "x" c) (DUnknown txt).
-Proof. intros H. specialize (H env0). discriminate. Qed.
+Proof. intros H. specialize (H env0 (fun x _ => Z.le_refl 0)). discriminate. Qed.
 
 (* IsPending written as a switch, with the operands in another order: accepted *)
 Lemma accepts_switch_lemma :
@@ -248,5 +264,5 @@ Proof. site_tac. Qed.
 
 (* removeLeastRecent's `len(h) <= maximum` as `!(maximum < len(h))`: accepted, for all integers *)
 Lemma accepts_de_morgan_lemma :
-  site_ok (Modelled "fits" c_rlr_fits) (DNot (DLt (DVar TN "arg2") (DVar TN "History.len"))).
+  site_ok (Modelled "fits" c_rlr_fits) (DNot (DLt (DVar TN "arg2") (DVar TN "len(History)"))).
 Proof. site_tac. Qed.
